@@ -408,11 +408,16 @@ func (v *violCtx) sigops() {
 		}
 		cost += consensus.TxSigOpCost(t, coins, flags)
 	}
-	variant := mod(arg, 8)
-	v.sub = []string{"at-limit", "legacy+4", "witness+1", "after-opreturn+4", "p2sh+4", "multisig+4", "coinbase-scriptsig+4", "coinbase-scriptsig-at-limit"}[variant]
+	variant := mod(arg, 10)
+	v.sub = []string{"at-limit", "legacy+4", "witness+1", "after-opreturn+4", "p2sh+4", "multisig+4", "coinbase-scriptsig+4", "coinbase-scriptsig-at-limit",
+		"p2sh-wrapped-witness+1", "p2sh-wrapped-witness-at-limit"}[variant]
+	wrapped := variant >= 8 // the witness script sits behind a P2SH output: its sig-ops count all the same
+	if variant == 8 {
+		variant = 2
+	}
 	target := consensus.MaxBlockSigOpsCost
 	switch variant {
-	case 0: // exactly at the limit
+	case 0, 9: // exactly at the limit
 	case 2:
 		target += 1
 	case 6: // the other transactions reach the limit; one OP_CHECKSIG in the coinbase's input script adds 4 (see post)
@@ -438,6 +443,12 @@ func (v *violCtx) sigops() {
 		}
 		witnessPart = 1 + 4*mod(arg/6, 3) // ≡ 1 mod 4
 	}
+	if variant == 9 { // exactly at the limit, 4..12 of it from a P2SH-wrapped witness script
+		if !c.segwit {
+			return
+		}
+		witnessPart = 4 * (1 + mod(arg/6, 3))
+	}
 	if variant == 4 {
 		p2shPart = 4 * (1 + mod(arg/6, 12))
 	}
@@ -452,6 +463,9 @@ func (v *violCtx) sigops() {
 	var wsh, p2sh []byte
 	if witnessPart > 0 {
 		wsh = s.B.WrapP2WSH(s.B.SigOps(witnessPart))
+		if wrapped {
+			wsh = s.B.WrapP2SH(wsh)
+		}
 		tx.Out = append(tx.Out, wire.TxOut{Value: rest / 2, PkScript: wsh})
 		rest -= rest / 2
 	}
